@@ -245,7 +245,7 @@ def main(rec):
                     stem_opts[stem] = {"wrap_" + k: bool(v) for k, v in ov.items()}
                     ent.setdefault("options", {}).update(stem_opts[stem])
                     fl.update(ov)
-            if (re.search(r"std::vector\s*<[^>]*>\s*[&*]?\s*\w+\s*[,)+]", dec) or re.match(r"\s*(const\s+)?std::string\s+\w+\s*\(", dec)) and not fl["fortran"]:
+            if (re.search(r"std::vector\s*<[^>]*>\s*[&*]?\s*\w+\s*[,)+]", dec) or re.match(r"\s*(const\s+)?std::(string|vector\s*<[^>]*>)\s+\w+\s*\(", dec)) and not fl["fortran"]:
                 # a function with std::vector arguments or a std::string result by value has no plain C entry point
                 # (only the Fortran-facing bufferify one, see vf/drivers/c.py): without Fortran nothing is emitted in C
                 fl.setdefault("lang_ok", {})["c"] = False
@@ -255,6 +255,8 @@ def main(rec):
                 # several entries of one row share a stem (overloads, base and derived class) and their flags differ:
                 # presence of the stem in an output says nothing about one entry (the toggle comparison still applies)
                 decl_flags[stem]["lang_ok"] = {k: False for k in ("c", "fortran", "python", "lua")}
+                for k in ("c", "fortran", "python", "lua"):
+                    decl_flags[stem][k] = max(decl_flags[stem][k], fl[k])      # "switched on somewhere" for the file-level oracle
         das = dir_assignment(r)
         y = workloads.dump_yaml(d)
         sp = make_spec(name, "work/%s.yaml" % name, y, None, [], lib_flags, das, decl_flags)
